@@ -28,6 +28,24 @@ class SimAbort(BaseException):
     """Unwinds a vthread (end of run, process death).  Never caught by workloads."""
 
 
+def _install_unraisable_filter():
+    """Generators of unwound vthreads are finalised by the garbage collector; their
+    ``finally`` blocks call inert primitives which raise SimAbort again.  That is
+    harmless ("Exception ignored in ...") - keep it off stderr."""
+    prev = sys.unraisablehook
+
+    def hook(unraisable):
+        if isinstance(unraisable.exc_value, SimAbort):
+            return
+        prev(unraisable)
+
+    if getattr(sys.unraisablehook, '__name__', '') != 'hook':
+        sys.unraisablehook = hook
+
+
+_install_unraisable_filter()
+
+
 class HarnessError(Exception):
     """Something is wrong with the simulation itself (never a verdict)."""
 
